@@ -570,6 +570,8 @@ class Executor:
         if isinstance(a, VOpaque) and isinstance(b, VOpaque) and a.tag == 'const' and b.tag == 'const':
             return z3.BoolVal(a.py == b.py)
         if isinstance(a, VOpaque) and isinstance(b, VOpaque) and a.tag == b.tag and a.tag in ('type', 'exc'):
+            if a.py is None or b.py is None:
+                return self.fresh_bool("eq")       # an unknown type / exception class: unspecified
             return z3.BoolVal(a.py == b.py)
         kinds = (type(a).__name__, type(b).__name__)
         if isinstance(a, (VInt, VBool, VRef, VTuple, VRec, VSeq)) and isinstance(b, (VInt, VBool, VRef, VTuple, VRec, VSeq)):
